@@ -16,6 +16,7 @@ import (
 	"strconv"
 	"strings"
 	"sync"
+	"sync/atomic"
 	"syscall"
 	"time"
 
@@ -193,7 +194,9 @@ func applyFaults(base []byte, fs []field, cs []chunkExt, faults []fault, foreign
 		if c.end > len(out) {
 			continue
 		}
-		switch f.Arg {
+		op := strings.TrimSuffix(f.Arg, "-resized")
+		lenBefore := len(out)
+		switch op {
 		case "truncate-here":
 			out = out[:fd.off]
 		case "delete-chunk":
@@ -218,6 +221,20 @@ func applyFaults(base []byte, fs []field, cs []chunkExt, faults []fault, foreign
 			if len(foreign) > 20 {
 				out = append(out[:c.hdr:c.hdr], append(append([]byte(nil), foreign[12:]...), out[c.end:]...)...)
 			}
+		}
+		if op != f.Arg && len(out) >= 12 {
+			// keep the container consistent: the enclosing ANMF chunk (the last frame chunk that starts before this
+			// sub-chunk) and the RIFF header take the change of length
+			delta := len(out) - lenBefore
+			if c.nested {
+				for k := fd.chunk - 1; k >= 0; k-- {
+					if !cs[k].nested && cs[k].hdr+8 <= len(out) && string(base[cs[k].hdr:cs[k].hdr+4]) == "ANMF" {
+						binary.LittleEndian.PutUint32(out[cs[k].hdr+4:], uint32(int(binary.LittleEndian.Uint32(out[cs[k].hdr+4:]))+delta))
+						break
+					}
+				}
+			}
+			binary.LittleEndian.PutUint32(out[4:], uint32(int(binary.LittleEndian.Uint32(out[4:]))+delta))
 		}
 	}
 	return out, desc
@@ -443,10 +460,18 @@ func runShard(run *vx.Run, inputs []c05Input, procs int) (int64, string) {
 	if err := os.WriteFile(path, buf.Bytes(), 0o644); err != nil {
 		vx.Fatal2("%v", err)
 	}
+	// An input that exceeded its CPU budget once is run a second time (fresh child) with a budget enlarged by 4 and by
+	// the machine's current oversubscription (1-minute load average / CPUs): on a heavily loaded machine the CPU time
+	// of a legitimate huge-canvas input grows several-fold (page-fault and runtime spinning time is CPU time), while a
+	// call that never returns exceeds any budget. Once one hang is confirmed in a run, later ones are judged at once.
+	retried := map[int]bool{}
 	budget := func(i int) time.Duration {
 		in := inputs[i]
 		// proportional to input length plus declared area (generous constants), plus process noise
 		ns := 3e9 + float64(len(in.data))*2e4 + float64(declaredArea(in.data))*400
+		if retried[i] {
+			ns *= 4 * loadFactor()
+		}
 		return time.Duration(ns)
 	}
 	slowest, slowDesc := int64(0), ""
@@ -471,6 +496,7 @@ func runShard(run *vx.Run, inputs []c05Input, procs int) (int64, string) {
 		}()
 		cur := -1
 		ended := false
+		retrying := false // the child was killed to run its current input again with the enlarged budget
 		var cpuAtStart time.Duration
 		var pending []string // lines read by waitSlowCase, handled here
 	loop:
@@ -534,6 +560,14 @@ func runShard(run *vx.Run, inputs []c05Input, procs int) (int64, string) {
 					continue loop
 				case "cpu":
 					cmd.Process.Kill()
+					if !retried[cur] && !c05HangConfirmed.Load() {
+						retried[cur] = true
+						run.Note("C05: %s used %v of CPU time (budget %v x threads); running it again with an enlarged budget before judging", inputs[cur].desc, cpu, budget(cur)/time.Duration(4*loadFactor()))
+						next = cur
+						retrying = true
+						break loop
+					}
+					c05HangConfirmed.Store(true)
 					run.Violate("hang-or-over-budget|"+inputs[cur].sig, fmt.Sprintf("%s: no result after %v of CPU time, budget %v (times the number of threads of the child, at least 4; input %d bytes, declared area %d)", inputs[cur].desc, cpu, budget(cur), len(inputs[cur].data), declaredArea(inputs[cur].data)), map[string]any{"desc": inputs[cur].desc, "bytes": inputs[cur].data})
 				case "blocked":
 					cmd.Process.Kill()
@@ -550,6 +584,9 @@ func runShard(run *vx.Run, inputs []c05Input, procs int) (int64, string) {
 		if ended {
 			break
 		}
+		if retrying {
+			continue
+		}
 		if cur >= 0 && next <= cur { // the child died while working on `cur`
 			msg := tailStr(stderr.String(), 600)
 			cls := "crash"
@@ -565,6 +602,29 @@ func runShard(run *vx.Run, inputs []c05Input, procs int) (int64, string) {
 		}
 	}
 	return slowest, slowDesc
+}
+
+// c05HangConfirmed is set once an input has exceeded its CPU budget twice in this run.
+var c05HangConfirmed atomic.Bool
+
+// loadFactor is the machine's oversubscription: 1-minute load average divided by the number of CPUs, at least 1.
+func loadFactor() float64 {
+	b, err := os.ReadFile("/proc/loadavg")
+	if err != nil {
+		return 1
+	}
+	f := strings.Fields(string(b))
+	if len(f) == 0 {
+		return 1
+	}
+	l, err := strconv.ParseFloat(f[0], 64)
+	if err != nil {
+		return 1
+	}
+	if r := l / float64(runtime.NumCPU()); r > 1 {
+		return r
+	}
+	return 1
 }
 
 // procCPU returns the CPU time (user + system, all threads) a process has used so far, from /proc/<pid>/stat.
